@@ -489,10 +489,53 @@ def amount_boundary_cases():
     return [make_case(specs, t) for specs, t in out]
 
 
+def date_boundary_cases():
+    """Deterministic corpus: [date:A..B] ranges that start on the 1st and end on the last day, the day before it and
+    (February) the 28th/29th of every month, in leap, non-leap and century years; ranges not starting on the 1st,
+    crossing a month / a year, one-day and empty ranges; [date=D] and [month=M] at month ends. All ranges of a year
+    are tag-only rules of ONE file, so a single transaction shows exactly which of them match; transactions on the
+    last days of each month and the first day of the next."""
+    import calendar
+    out = []
+    D = datetime.date
+    one = datetime.timedelta(1)
+    for y in (2023, 2024, 1900, 2000):
+        specs, days = [], set()
+        for m in (range(1, 13) if y in (2023, 2024) else (1, 2, 3, 12)):
+            last = calendar.monthrange(y, m)[1]
+            ends = {last, last - 1} | ({28} if m == 2 else set())
+            for e in sorted(ends):
+                specs.append(mk('EDGE', f'R{m}_{e}', '', '', tags=[f'r{m}-{e}'], mods=[f'[date:{D(y, m, 1).isoformat()}..{D(y, m, e).isoformat()}]']))
+            for d in (D(y, m, last) - one, D(y, m, last), D(y, m, last) + one, D(y, m, 1), D(y, m, 1) - one, D(y, m, 15)):
+                days.add(d)
+            if m == 2:
+                days |= {D(y, 2, 27), D(y, 2, 28), D(y, 3, 1), D(y, 3, 2)}
+        specs.append(mk('EDGE', 'Cat', 'C', 'S', mods=[f'[date:{y}-02-01..{y}-02-28]']))
+        out.append((specs, [tx('EDGE CASE', dt=d.isoformat()) for d in sorted(days)]))
+    y = 2024
+    specs = [mk('EDGE', 'A', '', '', tags=['from2'], mods=['[date:2024-02-02..2024-02-29]']),
+             mk('EDGE', 'B', '', '', tags=['cross-month'], mods=['[date:2024-01-31..2024-03-01]']),
+             mk('EDGE', 'C', '', '', tags=['cross-year'], mods=['[date:2023-12-31..2024-01-01]']),
+             mk('EDGE', 'D', '', '', tags=['one-day'], mods=['[date:2024-02-29..2024-02-29]']),
+             mk('EDGE', 'E', '', '', tags=['empty'], mods=['[date:2024-03-01..2024-02-29]']),
+             mk('EDGE', 'F', '', '', tags=['whole-year'], mods=['[date:2024-01-01..2024-12-31]']),
+             mk('EDGE', 'G', '', '', tags=['eq-leap'], mods=['[date=2024-02-29]']),
+             mk('EDGE', 'H', '', '', tags=['feb'], mods=['[month=2]']),
+             mk('EDGE', 'I', '', '', tags=['dec'], mods=['[month=12]']),
+             mk('EDGE', 'J', '', '', tags=['feb-and-range'], mods=['[month=2]', '[date:2024-02-01..2024-02-28]']),
+             mk('EDGE', 'K', '', '', tags=['two-months'], mods=['[date:2024-02-01..2024-03-31]']),
+             mk('EDGE', 'Cat', 'C', 'S', mods=['[date:2024-04-01..2024-04-30]'])]
+    days = [D(2023, 12, 30), D(2023, 12, 31), D(2024, 1, 1), D(2024, 1, 2), D(2024, 1, 30), D(2024, 1, 31), D(2024, 2, 1), D(2024, 2, 2),
+            D(2024, 2, 28), D(2024, 2, 29), D(2024, 3, 1), D(2024, 3, 2), D(2024, 3, 31), D(2024, 4, 1), D(2024, 4, 30), D(2024, 5, 1),
+            D(2024, 12, 31), D(2025, 1, 1), D(2023, 2, 28), D(2025, 2, 28), D(2025, 4, 15)]
+    out.append((specs, [tx('EDGE CASE', dt=d.isoformat()) for d in days]))
+    return [make_case(specs, t) for specs, t in out]
+
+
 def gen_cases(seed, n, today):
     rnd = random.Random(seed)
     cases = (interaction_cases() + separator_cases() + escape_pair_cases() + quoting_cases() + syntax_value_cases()
-             + amount_boundary_cases())
+             + amount_boundary_cases() + date_boundary_cases())
     # boundary stream: every hazard pattern alone, every safe pattern alone with one modifier of each kind
     for hz, pool in (('backslash', HAZ_BACKSLASH), ('quote', HAZ_QUOTE), ('paren', HAZ_PAREN), ('case', HAZ_CASE)):
         for pat, descs in pool:
